@@ -308,3 +308,458 @@ Proof.
   rewrite map_app in ND. eapply nodup_app_disj; [exact ND|exact Hin|].
   rewrite !map_app. apply in_or_app. right. apply in_or_app. left. exact Hheld.
 Qed.
+
+Lemma open_no_exit s w p' : DSInv s -> (dclosed (d_q s) = false -> p' <> WExit) ->
+  dclosed (d_q s) = false -> forall w', getw (updw (d_w s) w p') w' <> Some WExit.
+Proof.
+  intros HS Hp Ho w'. rewrite getw_updw. destruct (ds_open _ HS Ho) as (_ & Hx).
+  destruct (w =? w'); [|apply Hx]. destruct (getw (d_w s) w); [|discriminate].
+  intros [= E]. apply (Hp Ho E).
+Qed.
+
+(* a worker moves without touching jobs; the queue may be replaced by an equivalent one *)
+Lemma pres_w_plain s w p p' q' :
+  DSInv s -> getw (d_w s) w = Some p -> job_of p' = job_of p ->
+  (dclosed (d_q s) = false -> p' <> WExit) ->
+  DInv q' -> dabs q' = dabs (d_q s) -> dclosed q' = dclosed (d_q s) ->
+  DSInv (setw (setq s q') w p').
+Proof.
+  intros HS Hw Hj Hx HI' Ha Hc. destruct HS as [HI Hcons Hf Hd Hl Ho].
+  constructor; cbn [d_q d_w d_log d_accepted d_rejected d_succeeded setw setq]; auto.
+  - destruct Hcons as (lost & P & Hlost). exists lost. rewrite Ha, Hc. split; auto.
+    destruct (flat_map_updw job_of (d_w s) w p p' Hw) as (rest & P1 & P2).
+    unfold held in *. cbn [d_w]. rewrite P, P1, P2, Hj. apply Permutation_refl.
+  - rewrite Hc. intros Hop. destruct (Ho Hop) as (Hls & _). split; auto.
+    apply open_no_exit; auto. constructor; auto.
+Qed.
+
+Lemma pres_w_plain0 s w p p' :
+  DSInv s -> getw (d_w s) w = Some p -> job_of p' = job_of p ->
+  (dclosed (d_q s) = false -> p' <> WExit) -> DSInv (setw s w p').
+Proof.
+  intros HS Hw Hj Hx. 
+  replace (setw s w p') with (setw (setq s (d_q s)) w p') by (destruct s; reflexivity).
+  eapply pres_w_plain; eauto. apply HS.
+Qed.
+
+Lemma pres_submit s j q' ok :
+  DSInv s -> job_in j (d_accepted s) || job_in j (d_rejected s) = false ->
+  DInv q' -> dclosed q' = dclosed (d_q s) -> ok = negb (dclosed (d_q s)) ->
+  dabs q' = (if ok then dabs (d_q s) ++ [j] else dabs (d_q s)) ->
+  DSInv (if ok then mkD q' (d_w s) (d_log s) (d_accepted s ++ [j]) (d_rejected s) (d_succeeded s)
+         else mkD q' (d_w s) (d_log s) (d_accepted s) (d_rejected s ++ [j]) (d_succeeded s)).
+Proof.
+  intros HS Hfresh HI' Hc Hok Ha. destruct HS as [HI Hcons Hf Hd Hl Ho].
+  apply orb_false_iff in Hfresh. destruct Hfresh as [F1 F2].
+  apply job_in_false in F1, F2.
+  assert (ND' : NoDup (it_id j :: map it_id (d_accepted s ++ d_rejected s))).
+  { constructor; auto. rewrite map_app. intros Hin. apply in_app_or in Hin. tauto. }
+  destruct ok; constructor; cbn [d_q d_w d_log d_accepted d_rejected d_succeeded]; auto.
+  - destruct Hcons as (lost & P & Hlost). assert (Hop : dclosed (d_q s) = false) by (destruct (dclosed (d_q s)); auto; discriminate).
+    rewrite (Hlost Hop) in *. exists []. split; auto. rewrite Ha. unfold held in *. cbn [d_w].
+    eapply Permutation_trans; [apply Permutation_sym, Permutation_cons_append|].
+    rewrite <- !app_assoc. cbn [app]. rewrite (app_assoc (d_succeeded s)).
+    apply Permutation_cons_app. rewrite <- app_assoc. exact P.
+  - eapply Permutation_NoDup; [|exact ND']. rewrite !map_app. cbn [map].
+    rewrite <- app_assoc. cbn [app]. apply Permutation_middle.
+  - rewrite Hc. exact Ho.
+  - destruct Hcons as (lost & P & Hlost). exists lost. rewrite Ha, Hc. split; auto.
+  - eapply Permutation_NoDup; [|exact ND']. rewrite !map_app. cbn [map].
+    rewrite app_assoc. apply Permutation_cons_append.
+  - rewrite Hc. exact Ho.
+Qed.
+
+Lemma pres_close s : DSInv s -> DSInv (setq s (dclose (d_q s))).
+Proof.
+  intros HS. destruct HS as [HI Hcons Hf Hd Hl Ho].
+  destruct (dclose_inv (d_q s)) as (HI' & Ha & Hc); [apply HI|].
+  constructor; cbn [d_q d_w d_log d_accepted d_rejected d_succeeded setq]; auto.
+  - destruct Hcons as (lost & P & _). exists (dabs (d_q s) ++ lost). rewrite Ha, Hc. split; [|discriminate].
+    unfold held in *. cbn [d_w app]. rewrite P. apply Permutation_app_head.
+    rewrite !app_assoc. apply Permutation_app_tail. apply Permutation_app_comm.
+  - rewrite Hc. discriminate.
+Qed.
+
+(* Remove handed job j to worker w *)
+Lemma pres_take s w j q' :
+  DSInv s -> getw (d_w s) w = Some WRemove ->
+  DInv q' -> dabs (d_q s) = j :: dabs q' -> dclosed q' = dclosed (d_q s) ->
+  DSInv (setw (setq s q') w (WHold j)).
+Proof.
+  intros HS Hw HI' Ha Hc. destruct HS as [HI Hcons Hf Hd Hl Ho].
+  constructor; cbn [d_q d_w d_log d_accepted d_rejected d_succeeded setw setq]; auto.
+  - destruct Hcons as (lost & P & Hlost). exists lost. rewrite Hc. split; auto.
+    destruct (flat_map_updw job_of (d_w s) w WRemove (WHold j) Hw) as (rest & P1 & P2).
+    unfold held in *. cbn [d_w]. rewrite P, P1, P2, Ha. cbn [job_of app].
+    apply Permutation_app_head. apply Permutation_middle.
+  - rewrite Hc. intros Hop. destruct (Ho Hop) as (Hls & _). split; auto.
+    apply open_no_exit; auto. constructor; auto. discriminate.
+Qed.
+
+(* worker w enters job() *)
+Lemma pres_start s w j :
+  DSInv s -> getw (d_w s) w = Some (WHold j) ->
+  DSInv (setw (addlog s (EStart j (dclosed (d_q s)))) w (WRunning j)).
+Proof.
+  intros HS Hw. pose proof (held_not_succeeded s w j HS Hw) as Hns.
+  pose proof HS as [HI Hcons Hf Hd Hl Ho].
+  constructor; cbn [d_q d_w d_log d_accepted d_rejected d_succeeded setw addlog]; auto.
+  - destruct Hcons as (lost & P & Hlost). exists lost. split; auto.
+    destruct (flat_map_updw job_of (d_w s) w (WHold j) (WRunning j) Hw) as (rest & P1 & P2).
+    unfold held in *. cbn [d_w]. rewrite P, P1, P2. apply Permutation_refl.
+  - rewrite done_of_snoc, app_nil_r. exact Hd.
+  - rewrite ok_log_snoc, Hl. cbn [check_ev app andb]. rewrite <- Hd, Hns. reflexivity.
+  - intros Hop. destruct (Ho Hop) as (Hls & _). rewrite late_starts_snoc, Hop, Hls. split; auto.
+    apply open_no_exit; auto. discriminate.
+Qed.
+
+(* the job run by worker w returns *)
+Lemma pres_finish s w j (ok : bool) :
+  DSInv s -> getw (d_w s) w = Some (WRunning j) ->
+  DSInv (if ok then setw (mkD (d_q s) (d_w s) (d_log s ++ [EFinish j true]) (d_accepted s) (d_rejected s)
+                              (d_succeeded s ++ [j])) w WIdle
+         else setw (addlog s (EFinish j false)) w (WRequeue j)).
+Proof.
+  intros HS Hw. destruct HS as [HI Hcons Hf Hd Hl Ho].
+  destruct ok; constructor; cbn [d_q d_w d_log d_accepted d_rejected d_succeeded setw addlog]; auto.
+  - destruct Hcons as (lost & P & Hlost). exists lost. split; auto.
+    destruct (flat_map_updw job_of (d_w s) w (WRunning j) WIdle Hw) as (rest & P1 & P2).
+    unfold held in *. cbn [d_w setw]. rewrite P2, P, P1. cbn [job_of app].
+    rewrite <- !app_assoc. apply Permutation_app_head. cbn [app].
+    apply Permutation_sym. apply Permutation_middle.
+  - rewrite done_of_snoc, Hd. reflexivity.
+  - rewrite ok_log_snoc, Hl. reflexivity.
+  - intros Hop. destruct (Ho Hop) as (Hls & _). rewrite late_starts_snoc, Hls. split; auto.
+    apply open_no_exit; auto. constructor; auto. discriminate.
+  - destruct Hcons as (lost & P & Hlost). exists lost. split; auto.
+    destruct (flat_map_updw job_of (d_w s) w (WRunning j) (WRequeue j) Hw) as (rest & P1 & P2).
+    unfold held in *. cbn [d_w setw addlog]. rewrite P2, P, P1. apply Permutation_refl.
+  - rewrite done_of_snoc, app_nil_r. exact Hd.
+  - rewrite ok_log_snoc, Hl. reflexivity.
+  - intros Hop. destruct (Ho Hop) as (Hls & _). rewrite late_starts_snoc, Hls. split; auto.
+    apply open_no_exit; auto. constructor; auto. discriminate.
+Qed.
+
+(* a failed job is put back (or dropped when the queue is closed) *)
+Lemma pres_requeue s w j q' (ok : bool) :
+  DSInv s -> getw (d_w s) w = Some (WRequeue j) ->
+  DInv q' -> dclosed q' = dclosed (d_q s) -> ok = negb (dclosed (d_q s)) ->
+  dabs q' = (if ok then dabs (d_q s) ++ [j] else dabs (d_q s)) ->
+  DSInv (setw (setq s q') w WIdle).
+Proof.
+  intros HS Hw HI' Hc Hok Ha. destruct HS as [HI Hcons Hf Hd Hl Ho].
+  constructor; cbn [d_q d_w d_log d_accepted d_rejected d_succeeded setw setq]; auto.
+  - destruct Hcons as (lost & P & Hlost).
+    destruct (flat_map_updw job_of (d_w s) w (WRequeue j) WIdle Hw) as (rest & P1 & P2).
+    unfold held in *. cbn [d_w]. rewrite Hc. destruct ok.
+    + exists lost. split; auto. rewrite P, P1, P2, Ha. cbn [job_of app].
+      apply Permutation_app_head. rewrite <- app_assoc. apply Permutation_app_head. cbn [app].
+      apply Permutation_refl.
+    + exists (j :: lost). split.
+      * rewrite P, P1, P2, Ha. cbn [job_of app]. apply Permutation_app_head. apply Permutation_app_head.
+        apply Permutation_sym. apply Permutation_trans with (j :: rest ++ lost); [|apply Permutation_refl].
+        apply Permutation_sym. apply Permutation_middle.
+      * intros Hop. rewrite Hop in Hok. discriminate.
+  - rewrite Hc. intros Hop. destruct (Ho Hop) as (Hls & _). split; auto.
+    apply open_no_exit; auto. constructor; auto. discriminate.
+Qed.
+
+Definition dok (r : dres) : Prop :=
+  match r with DNext s' => DSInv s' | DBlocked => True | DPanic => False end.
+
+Lemma dstep_ok s l : DSInv s -> dok (dstep s l).
+Proof.
+  intros HS. pose proof (ds_q _ HS) as HI. destruct l; cbn [dstep].
+  - (* Submit *)
+    destruct (job_in j (d_accepted s) || job_in j (d_rejected s)) eqn:Ef; cbn; auto.
+    destruct (dadd_ok (d_q s) j HI) as (q' & ok & H & I' & Hc & _ & Hok & Ha). rewrite H. cbn [dqdo].
+    pose proof (pres_submit s j q' ok HS Ef I' Hc Hok Ha) as R. destruct ok; exact R.
+  - (* Close *) cbn. apply pres_close; auto.
+  - (* step *)
+    destruct (getw (d_w s) w) as [p|] eqn:Hw; cbn; auto. destruct p; cbn; auto.
+    + destruct (dclosed (d_q s)) eqn:Ec; [|destruct (dcnt (d_q s) =? 0)]; cbn;
+        eapply pres_w_plain0; eauto; try discriminate; congruence.
+    + destruct (dremove_ok (d_q s) HI) as (q' & r & H & I' & Hc & _ & Ha). rewrite H. cbn [dqdo].
+      destruct r as [j|]; cbn.
+      * apply pres_take; auto.
+      * destruct Ha as (A1 & A2). eapply pres_w_plain; eauto; try discriminate; congruence.
+    + destruct (dclosed (d_q s)) eqn:Ec; eapply pres_w_plain0; eauto; try discriminate; congruence.
+    + apply pres_start; auto.
+    + destruct (dadd_ok (d_q s) j HI) as (q' & ok & H & I' & Hc & _ & Hok & Ha). rewrite H. cbn [dqdo].
+      eapply pres_requeue; eauto.
+  - (* wake *)
+    destruct (getw (d_w s) w) as [p|] eqn:Hw; cbn; auto. destruct p; cbn; auto.
+    destruct (dclosed (d_q s) || negb (dcnt (d_q s) =? 0)); cbn; auto.
+    eapply pres_w_plain0; eauto. discriminate.
+  - (* finish *)
+    destruct (getw (d_w s) w) as [p|] eqn:Hw; cbn; auto. destruct p; cbn; auto.
+    pose proof (pres_finish s w j ok HS Hw) as R. destruct ok; exact R.
+Qed.
+
+Theorem drun_inv sched : forall s, DSInv s -> dok (drun s sched).
+Proof.
+  induction sched as [|l sched IH]; intros s HS; cbn [drun]; auto.
+  pose proof (dstep_ok s l HS) as H. destruct (dstep s l); cbn in *; auto.
+Qed.
+
+Definition dreach (ic nw : nat) (s : dst) : Prop := exists sched, drun (dinitial ic nw) sched = DNext s.
+
+Lemma dreach_inv ic nw s : 1 <= ic -> dreach ic nw s -> DSInv s.
+Proof.
+  intros Hic (sched & H). pose proof (drun_inv sched _ (DSInv_init ic nw Hic)) as R. rewrite H in R. exact R.
+Qed.
+
+Lemma d_no_panic ic nw sched : 1 <= ic -> drun (dinitial ic nw) sched <> DPanic.
+Proof.
+  intros Hic H. pose proof (drun_inv sched _ (DSInv_init ic nw Hic)) as R. rewrite H in R. exact R.
+Qed.
+
+(* ---- conservation ---- *)
+Lemma inv_conservation s : DSInv s -> dclosed (d_q s) = false ->
+  Permutation (d_accepted s) (d_succeeded s ++ dabs (d_q s) ++ held s) /\
+  NoDup (map it_id (d_accepted s)).
+Proof.
+  intros HS Ho. destruct (ds_cons _ HS) as (lost & P & Hl). rewrite (Hl Ho), app_nil_r in P. split; auto.
+  pose proof (ds_fresh _ HS) as ND. rewrite map_app in ND. eapply nodup_app_l; eauto.
+Qed.
+
+(* ---- no run of a job after it succeeded ---- *)
+Lemma ok_log_sound l : forall d, ok_log d l = true ->
+  forall l1 j f l2, l = l1 ++ EStart j f :: l2 -> job_in j (d ++ done_of l1) = false.
+Proof.
+  induction l as [|x l IH]; intros d H l1 j f l2 E.
+  - destruct l1; discriminate.
+  - destruct l1 as [|y l1]; cbn in E; injection E as -> El.
+    + cbn in H. apply andb_true_iff in H. destruct H as [H _]. rewrite app_nil_r.
+      apply negb_true_iff in H. exact H.
+    + destruct y as [j' f'|j' [|]]; cbn [ok_log done_of] in *.
+      * apply andb_true_iff in H. destruct H as [_ H]. eapply IH; eauto.
+      * replace (d ++ j' :: done_of l1) with ((d ++ [j']) ++ done_of l1) by (rewrite <- app_assoc; reflexivity).
+        eapply IH; eauto.
+      * eapply IH; eauto.
+Qed.
+
+Lemma in_done_of' j l : In (EFinish j true) l -> In j (done_of l).
+Proof.
+  induction l as [|x l IH]; cbn; [contradiction|]. intros [->|H].
+  - cbn. auto.
+  - destruct x as [j' f'|j' [|]]; cbn; auto.
+Qed.
+
+Lemma job_in_In j l : In j l -> job_in j l = true.
+Proof.
+  unfold job_in. intros H. apply existsb_exists. exists j. split; auto.
+  unfold job_eqb. apply N.eqb_refl.
+Qed.
+
+Lemma in_done_of j l : In (EFinish j true) l -> job_in j (done_of l) = true.
+Proof. intros H. apply job_in_In, in_done_of'. exact H. Qed.
+
+Lemma inv_no_rerun s : DSInv s ->
+  forall l1 j f l2, d_log s = l1 ++ EStart j f :: l2 -> ~ In (EFinish j true) l1.
+Proof.
+  intros HS l1 j f l2 E Hin. pose proof (ok_log_sound _ [] (ds_log _ HS) l1 j f l2 E) as H.
+  cbn [app] in H. rewrite (in_done_of j l1 Hin) in H. discriminate.
+Qed.
+
+(* ---- after Close ---- *)
+Lemma closed_submit s j s' : DSInv s -> dclosed (d_q s) = true -> dstep s (LSubmit j) = DNext s' ->
+  In j (d_rejected s') /\ d_accepted s' = d_accepted s /\ dabs (d_q s') = [] /\ d_log s' = d_log s.
+Proof.
+  intros HS Hc. cbn [dstep]. destruct (job_in j (d_accepted s) || job_in j (d_rejected s)); [discriminate|].
+  destruct (dadd_ok (d_q s) j (ds_q _ HS)) as (q' & ok & H & I' & Hc' & _ & Hok & Ha). rewrite H. cbn [dqdo].
+  rewrite Hc in Hok. cbn in Hok. subst ok. intros [= <-]. cbn [d_rejected d_accepted d_q d_log].
+  destruct (DInv_closed _ (ds_q _ HS) Hc) as (_ & _ & A0). rewrite Ha, A0.
+  repeat split; auto. apply in_or_app. right. left. reflexivity.
+Qed.
+
+Lemma hold_jobs_updw s w p p' : getw (d_w s) w = Some p ->
+  exists rest, Permutation (flat_map hold_of (d_w s)) (hold_of p ++ rest) /\
+               Permutation (flat_map hold_of (updw (d_w s) w p')) (hold_of p' ++ rest).
+Proof. apply flat_map_updw. Qed.
+
+(* once closed: the queue hands out nothing, re-queued jobs are dropped, and a run can only start for
+   a job that a worker was already holding *)
+Lemma closed_step s l s' : DSInv s -> dclosed (d_q s) = true -> dstep s l = DNext s' ->
+  dclosed (d_q s') = true /\
+  Permutation (late_starts (d_log s') ++ holding_jobs s') (late_starts (d_log s) ++ holding_jobs s).
+Proof.
+  intros HS Hc. pose proof (ds_q _ HS) as HI.
+  destruct (DInv_closed _ HI Hc) as (_ & Hcnt & A0).
+  assert (Hplain : forall w p p' q', getw (d_w s) w = Some p -> hold_of p = [] -> hold_of p' = [] ->
+            dclosed q' = true ->
+            dclosed (d_q (setw (setq s q') w p')) = true /\
+            Permutation (late_starts (d_log (setw (setq s q') w p')) ++ holding_jobs (setw (setq s q') w p'))
+                        (late_starts (d_log s) ++ holding_jobs s)).
+  { intros w p p' q' Hw H1 H2 Hq. split; [exact Hq|]. cbn [d_log setw setq]. apply Permutation_app_head.
+    unfold holding_jobs. cbn [d_w setw setq].
+    destruct (hold_jobs_updw s w p p' Hw) as (rest & P1 & P2). rewrite P1, P2, H1, H2. apply Permutation_refl. }
+  destruct l; cbn [dstep].
+  - destruct (job_in j (d_accepted s) || job_in j (d_rejected s)); [discriminate|].
+    destruct (dadd_ok (d_q s) j HI) as (q' & ok & H & I' & Hc' & _ & Hok & Ha). rewrite H. cbn [dqdo].
+    rewrite Hc in Hok. cbn in Hok. subst ok. intros [= <-]. cbn. split; [congruence|apply Permutation_refl].
+  - intros [= <-]. cbn. split; auto; try apply Permutation_refl.
+  - destruct (getw (d_w s) w) as [p|] eqn:Hw; [|discriminate]. destruct p; try discriminate.
+    + rewrite Hc. intros [= <-]. replace (setw s w WCheckClosed) with (setw (setq s (d_q s)) w WCheckClosed) by (destruct s; reflexivity).
+      eapply Hplain; eauto.
+    + destruct (dremove_ok (d_q s) HI) as (q' & r & H & I' & Hc' & _ & Ha). rewrite H. cbn [dqdo].
+      destruct r as [j|]; [rewrite A0 in Ha; discriminate|]. intros [= <-]. eapply Hplain; eauto; congruence.
+    + rewrite Hc. intros [= <-]. replace (setw s w WExit) with (setw (setq s (d_q s)) w WExit) by (destruct s; reflexivity).
+      eapply Hplain; eauto.
+    + intros [= <-]. split; [exact Hc|]. cbn [d_log setw addlog]. rewrite late_starts_snoc, Hc.
+      unfold holding_jobs. cbn [d_w setw addlog].
+      destruct (hold_jobs_updw s w (WHold j) (WRunning j) Hw) as (rest & P1 & P2). rewrite P1, P2. cbn [hold_of app].
+      rewrite <- app_assoc. apply Permutation_refl.
+    + destruct (dadd_ok (d_q s) j HI) as (q' & ok & H & I' & Hc' & _ & Hok & Ha). rewrite H. cbn [dqdo].
+      intros [= <-]. eapply Hplain; eauto; congruence.
+  - destruct (getw (d_w s) w) as [p|] eqn:Hw; [|discriminate]. destruct p; try discriminate.
+    rewrite Hc. cbn. intros [= <-]. replace (setw s w WRemove) with (setw (setq s (d_q s)) w WRemove) by (destruct s; reflexivity).
+    eapply Hplain; eauto.
+  - destruct (getw (d_w s) w) as [p|] eqn:Hw; [|discriminate]. destruct p; try discriminate.
+    destruct ok; intros [= <-]; (split; [exact Hc|]); cbn [d_log setw addlog]; rewrite late_starts_snoc, app_nil_r;
+      apply Permutation_app_head; unfold holding_jobs; cbn [d_w setw addlog].
+    + destruct (hold_jobs_updw s w (WRunning j) WIdle Hw) as (rest & P1 & P2). rewrite P1, P2. apply Permutation_refl.
+    + destruct (hold_jobs_updw s w (WRunning j) (WRequeue j) Hw) as (rest & P1 & P2). rewrite P1, P2. apply Permutation_refl.
+Qed.
+
+Lemma closed_run sched : forall s s', DSInv s -> dclosed (d_q s) = true -> drun s sched = DNext s' ->
+  dclosed (d_q s') = true /\
+  Permutation (late_starts (d_log s') ++ holding_jobs s') (late_starts (d_log s) ++ holding_jobs s).
+Proof.
+  induction sched as [|l sched IH]; intros s s' HS Hc; cbn [drun].
+  - intros [= <-]. split; auto; try apply Permutation_refl.
+  - destruct (dstep s l) as [s1| |] eqn:E; try discriminate. intros H.
+    destruct (closed_step s l s1 HS Hc E) as (Hc1 & P1).
+    pose proof (dstep_ok s l HS) as HS1. rewrite E in HS1. cbn in HS1.
+    destruct (IH s1 s' HS1 Hc1 H) as (Hc2 & P2). split; auto. rewrite P2. exact P1.
+Qed.
+
+(* Every run that starts after Close is of a job that a worker had removed from the queue, and not yet
+   started, when Close was called; each such job is started at most once. *)
+Lemma after_close ic nw sched1 sched2 s1 s : 1 <= ic ->
+  drun (dinitial ic nw) sched1 = DNext s1 -> dclosed (d_q s1) = false ->
+  drun s1 (LDClose :: sched2) = DNext s ->
+  Permutation (late_starts (d_log s) ++ holding_jobs s) (holding_jobs s1).
+Proof.
+  intros Hic H1 Ho H2. assert (HS1 : DSInv s1) by (apply (dreach_inv ic nw); [exact Hic|exists sched1; exact H1]).
+  cbn [drun dstep] in H2.
+  destruct (closed_run sched2 _ s (pres_close s1 HS1) eq_refl H2) as (_ & P).
+  rewrite P. cbn [d_log setq]. destruct (ds_open _ HS1 Ho) as (Hls & _). rewrite Hls. apply Permutation_refl.
+Qed.
+
+(* ---- liveness, the part that is proved ---- *)
+Lemma terminal_all_done s : DSInv s -> dclosed (d_q s) = false -> dcnt (d_q s) = 0 -> held s = [] ->
+  Permutation (d_accepted s) (d_succeeded s).
+Proof.
+  intros HS Ho Hc Hh. destruct (inv_conservation s HS Ho) as (P & _). rewrite Hh in P.
+  assert (A : dabs (d_q s) = []) by (unfold dabs; apply abs_cnt0; exact Hc).
+  rewrite A in P. cbn in P. rewrite app_nil_r in P. exact P.
+Qed.
+
+(* no deadlock: while open, every worker that is not inside a job and not asleep on an empty queue can move;
+   a sleeping worker can be woken as soon as the queue is non-empty; a job in progress can return *)
+Lemma progress s w p : DSInv s -> dclosed (d_q s) = false -> getw (d_w s) w = Some p ->
+  match p with
+  | WRunning _ => forall ok, exists s', dstep s (LWFinish w ok) = DNext s'
+  | WCondWait => dcnt (d_q s) <> 0 -> exists s', dstep s (LWWake w) = DNext s'
+  | WExit => False
+  | _ => exists s', dstep s (LWStep w) = DNext s'
+  end.
+Proof.
+  intros HS Ho Hw. pose proof (ds_q _ HS) as HI. destruct p; cbn [dstep]; rewrite ?Hw.
+  - rewrite Ho. destruct (dcnt (d_q s) =? 0); eauto.
+  - intros Hc. rewrite Ho. apply Nat.eqb_neq in Hc. rewrite Hc. cbn. eauto.
+  - destruct (dremove_ok (d_q s) HI) as (q' & r & H & _). rewrite H. cbn. destruct r; eauto.
+  - eauto.
+  - eauto.
+  - intros ok. destruct ok; eauto.
+  - destruct (dadd_ok (d_q s) j HI) as (q' & ok & H & _). rewrite H. cbn. eauto.
+  - destruct (ds_open _ HS Ho) as (_ & Hx). apply (Hx w Hw).
+Qed.
+
+(* ---- bounded work: every run ends in a success (at most one per job) or in a failure ---- *)
+Definition run_of (p : wpc) : list job := match p with WRunning j => [j] | _ => [] end.
+
+Definition CInv (s : dst) : Prop :=
+  count_starts (d_log s) =
+  length (d_succeeded s) + count_failures (d_log s) + length (flat_map run_of (d_w s)).
+
+Lemma len_updw {B} (f : wpc -> list B) ws w p p' : getw ws w = Some p ->
+  length (flat_map f (updw ws w p')) + length (f p) = length (flat_map f ws) + length (f p').
+Proof.
+  intros H. destruct (flat_map_updw f ws w p p' H) as (rest & P1 & P2).
+  rewrite (Permutation_length P1), (Permutation_length P2), !app_length. lia.
+Qed.
+
+Lemma count_starts_snoc l e :
+  count_starts (l ++ [e]) = count_starts l + match e with EStart _ _ => 1 | _ => 0 end.
+Proof. unfold count_starts. rewrite filter_app, app_length. destruct e; reflexivity. Qed.
+Lemma count_failures_snoc l e :
+  count_failures (l ++ [e]) = count_failures l + match e with EFinish _ false => 1 | _ => 0 end.
+Proof. unfold count_failures. rewrite filter_app, app_length. destruct e as [|? [|]]; reflexivity. Qed.
+
+Lemma cinv_step s l s' : CInv s -> dstep s l = DNext s' -> CInv s'.
+Proof.
+  unfold CInv. intros HC.
+  assert (Hplain : forall w p p' q', getw (d_w s) w = Some p -> run_of p = [] -> run_of p' = [] ->
+            count_starts (d_log (setw (setq s q') w p')) =
+            length (d_succeeded (setw (setq s q') w p')) + count_failures (d_log (setw (setq s q') w p')) +
+            length (flat_map run_of (d_w (setw (setq s q') w p')))).
+  { intros w p p' q' Hw H1 H2. cbn [d_log d_succeeded d_w setw setq].
+    pose proof (len_updw run_of (d_w s) w p p' Hw) as L. rewrite H1, H2 in L. cbn in L. lia. }
+  destruct l; cbn [dstep].
+  - destruct (job_in j (d_accepted s) || job_in j (d_rejected s)); [discriminate|].
+    destruct (dadd (d_q s) j) as [[q' ok]|]; [|discriminate]. cbn. destruct ok; intros [= <-]; cbn; exact HC.
+  - intros [= <-]. exact HC.
+  - destruct (getw (d_w s) w) as [p|] eqn:Hw; [|discriminate]. destruct p; try discriminate.
+    + destruct (dclosed (d_q s)); [|destruct (dcnt (d_q s) =? 0)]; intros [= <-];
+        match goal with |- context [setw s w ?p'] =>
+          replace (setw s w p') with (setw (setq s (d_q s)) w p') by (destruct s; reflexivity) end;
+        eapply Hplain; eauto.
+    + destruct (dremove (d_q s)) as [[q' r]|]; [|discriminate]. cbn. destruct r; intros [= <-]; eapply Hplain; eauto.
+    + intros [= <-].
+      match goal with |- context [setw s w ?p'] =>
+        replace (setw s w p') with (setw (setq s (d_q s)) w p') by (destruct s; reflexivity) end.
+      destruct (dclosed (d_q s)); eapply Hplain; eauto.
+    + intros [= <-]. cbn [d_log d_succeeded d_w setw addlog]. rewrite count_starts_snoc, count_failures_snoc.
+      pose proof (len_updw run_of (d_w s) w (WHold j) (WRunning j) Hw) as L. cbn in L. lia.
+    + destruct (dadd (d_q s) j) as [[q' ok]|]; [|discriminate]. cbn. intros [= <-]. eapply Hplain; eauto.
+  - destruct (getw (d_w s) w) as [p|] eqn:Hw; [|discriminate]. destruct p; try discriminate.
+    destruct (dclosed (d_q s) || negb (dcnt (d_q s) =? 0)); [|discriminate]. intros [= <-].
+    replace (setw s w WRemove) with (setw (setq s (d_q s)) w WRemove) by (destruct s; reflexivity).
+    eapply Hplain; eauto.
+  - destruct (getw (d_w s) w) as [p|] eqn:Hw; [|discriminate]. destruct p; try discriminate.
+    destruct ok; intros [= <-]; cbn [d_log d_succeeded d_w setw addlog];
+      rewrite count_starts_snoc, count_failures_snoc, ?app_length; cbn [length].
+    + pose proof (len_updw run_of (d_w s) w (WRunning j) WIdle Hw) as L. cbn in L. lia.
+    + pose proof (len_updw run_of (d_w s) w (WRunning j) (WRequeue j) Hw) as L. cbn in L. lia.
+Qed.
+
+Lemma cinv_run sched : forall s s', CInv s -> drun s sched = DNext s' -> CInv s'.
+Proof.
+  induction sched as [|l sched IH]; intros s s' HC; cbn [drun].
+  - intros [= <-]. exact HC.
+  - destruct (dstep s l) as [s1| |] eqn:E; try discriminate. intros H.
+    eapply IH; [eapply cinv_step; eauto|exact H].
+Qed.
+
+Lemma cinv_init ic nw : CInv (dinitial ic nw).
+Proof.
+  unfold CInv, dinitial; cbn.
+  assert (E : flat_map run_of (repeat WIdle nw) = []) by (induction nw; cbn; auto). rewrite E. reflexivity.
+Qed.
+
+Lemma run_le_held ws : length (flat_map run_of ws) <= length (flat_map job_of ws).
+Proof.
+  induction ws as [|p ws IH]; cbn; auto. rewrite !app_length. destruct p; cbn; lia.
+Qed.
+
+(* the number of runs is at most (number of accepted jobs) + (number of failed runs) *)
+Lemma bounded_runs ic nw sched s : 1 <= ic -> drun (dinitial ic nw) sched = DNext s ->
+  count_starts (d_log s) <= length (d_accepted s) + count_failures (d_log s).
+Proof.
+  intros Hic H. pose proof (cinv_run sched _ s (cinv_init ic nw) H) as HC. unfold CInv in HC.
+  assert (HS : DSInv s) by (apply (dreach_inv ic nw); [exact Hic|exists sched; exact H]).
+  destruct (ds_cons _ HS) as (lost & P & _). apply Permutation_length in P.
+  rewrite !app_length in P. pose proof (run_le_held (d_w s)) as L. unfold held in P. lia.
+Qed.
